@@ -175,6 +175,14 @@ def oracle(chk, inp, m, schema, ci, classes, rng, obs_names):
             mutate_everything(c, schema, ci, classes, rng)
         else:
             mutate_toplevel(c, schema, ci, classes, rng)
+        # … and a merge INTO the copy of bytes carrying a field its class does not know: the copy's unknown
+        # fields grow, the original's must not (they are bytes — shared storage would show here)
+        used = {f.num for f in schema[ci].fields}
+        n = next(k for k in (2047, 2046, 1000, 999, 19, 18, 17) if k not in used)
+        try:
+            c.parse(betterproto.encode_varint(n << 3) + b"\x05")
+        except Exception:
+            pass
         try:
             now = snapshot(m, schema, ci)
         except Exception as e:
